@@ -441,6 +441,7 @@ class SettingsTwoHandles(SubCheck):
         'statistics': [0, 1],
         'disk_min_file_size': [8, 100, 32768],
         'eviction_policy': ['least-recently-stored', 'least-recently-used', 'none'],
+        'disk_pickle_protocol': [2, 4, 5],
     }
 
     def examples(self, tier):
@@ -467,6 +468,8 @@ class SettingsTwoHandles(SubCheck):
         ref = [diskcache.Cache(pc, timeout=0), diskcache.Cache(pc, timeout=0)]
         last_writer = {}
         stale = False
+        # what the Settings table must hold: the creation defaults, then whatever was reset last through any handle
+        truth = {k: getattr(ref[0], k) for k in self.VALUES}
         try:
             for step in case['steps']:
                 name, h = step[0], step[1]
@@ -482,8 +485,13 @@ class SettingsTwoHandles(SubCheck):
                     if k in last_writer and last_writer[k] != h:
                         stale = True
                     last_writer[k] = h
+                    truth[k] = step[3]
+                    if want != step[3]:
+                        raise Violation('C13/settings/reset-unsharded', 'step %r: Cache.reset returned %r' % (step, want))
                 elif name == 'reload':
                     got, want = fan[h].reset(k), ref[h].reset(k)
+                    if want != truth[k]:
+                        raise Violation('C13/settings/reload-unsharded', 'step %r: reloading through the unsharded cache gives %r, last reset (by any handle) was %r\nsteps %s' % (step, want, truth[k], short(case['steps'], 600)))
                 else:
                     got, want = getattr(fan[h], k), getattr(ref[h], k)
                 if got != want:
@@ -491,6 +499,9 @@ class SettingsTwoHandles(SubCheck):
             con = sqlite3.connect(os.path.join(pc, 'cache.db'))
             want = dict(con.execute('SELECT key, value FROM Settings').fetchall())
             con.close()
+            for k in self.VALUES:
+                if want[k] != truth[k]:
+                    raise Violation('C13/settings/persisted-unsharded', 'after %s: the unsharded cache persists %s = %r, last reset was %r' % (short(case['steps'], 600), k, want[k], truth[k]))
             for i in range(shards):
                 have, _, _ = shard_settings(pf, i)
                 for k in self.VALUES:
@@ -499,6 +510,31 @@ class SettingsTwoHandles(SubCheck):
                             'C13/settings/persisted',
                             'after %s: shard %d persists %s = %r, the unsharded cache %r' % (short(case['steps'], 600), i, k, have[k], want[k]),
                         )
+            # the settings are not only numbers in a table: (1) a structured key stored through a handle that lived through the
+            # resets (the one that set the pickle protocol last) is found by a handle opened afterwards (both serialise keys the same way); (2) a handle that reloads the
+            # eviction policy evicts by it (under 'none' nothing is ever evicted, otherwise a tiny size limit makes writes evict)
+            for kind, handles, opener in (('FanoutCache', fan, lambda: diskcache.FanoutCache(pf, shards=shards, timeout=0)), ('Cache', ref, lambda: diskcache.Cache(pc, timeout=0))):
+                # (through the handle that set the pickle protocol last: the others legitimately still encode keys the old way -
+                # reloading a disk_ setting does not reach the Disk object, in the unsharded cache either; outside the properties)
+                handles[last_writer.get('disk_pickle_protocol', 0)].set(('t', 1), 'found')
+                fresh = opener()
+                try:
+                    if fresh.get(('t', 1)) != 'found':
+                        raise Violation('C13/settings/key-identity-across-handles/%s' % kind, 'after %s: %s: a tuple key stored through an older handle is missing through a handle opened afterwards' % (short(case['steps'], 600), kind))
+                finally:
+                    fresh.close()
+                h = handles[1]
+                h.reset('eviction_policy')
+                h.reset('cull_limit', 10)
+                h.reset('size_limit', 1)
+                for i in range(3):
+                    h.set('probe%d' % i, i)
+                kept = sum(('probe%d' % i) in h for i in range(3))
+                if (kept == 3) != (truth['eviction_policy'] == 'none'):
+                    raise Violation(
+                        'C13/settings/policy-behaviour/%s' % kind,
+                        'after %s and a reload of eviction_policy (%r): %s kept %d of 3 items written over a 1-byte size limit' % (short(case['steps'], 600), truth['eviction_policy'], kind, kept),
+                    )
             return {'nontrivial': stale, 'classes': ['shards=%d' % shards] + (['reset-over-stale-copy'] if stale else [])}
         finally:
             for c in fan + ref:
